@@ -129,21 +129,47 @@ def ensure_makefile():
 _LOCK = None
 
 
+def _status(targets):
+    return {t: os.path.exists(os.path.join(kv.COQ, t)) and
+            os.path.getmtime(os.path.join(kv.COQ, t)) >= os.path.getmtime(os.path.join(kv.COQ, t[:-1]))
+            for t in targets}
+
+
 def build(targets):
-    """Full .vo build of the given targets (and everything they depend on) under an exclusive lock; the
-    lock is then downgraded to a shared one, kept until the process ends, so that no other check rebuilds
-    a .vo file while this one evaluates its shards and re-checks its Props file."""
+    """Full .vo build of the given targets (and everything they depend on).  A shared lock is held from here
+    until the process ends, so that no other check rebuilds a .vo file while this one evaluates its shards and
+    re-checks its Props file.  The exclusive lock is taken only when something actually has to be regenerated or
+    recompiled (tables changed, a source is newer than its .vo): checks of an unchanged development run concurrently."""
     global _LOCK
     os.makedirs(kv.BUILD, exist_ok=True)
     _LOCK = open(os.path.join(kv.BUILD, '.lock'), 'w')
+    fcntl.flock(_LOCK, fcntl.LOCK_SH)
+    env = kv.impl_env()
+    env['VERIF_TABLES_DRY'] = '1'
+    rc_t, out_t, _ = kv.run([kv.PY, '-B', os.path.join(HERE, 'gen_tables.py'),
+                             os.path.join(kv.COQ, 'Gen', 'Tables.v')], 120, env=env)
+    uptodate = False
+    if rc_t == 0 and os.path.exists(os.path.join(kv.COQ, 'Makefile')):
+        try:
+            ensure_makefile_unchanged = open(os.path.join(kv.COQ, '_CoqProject')).read()
+        except OSError:
+            ensure_makefile_unchanged = None
+        head = open(os.path.join(kv.COQ, '_CoqProject.head')).read()
+        files = []
+        for sub in ('Base', 'Gen', 'Model', 'Proofs', 'Props'):
+            files += sorted(os.path.relpath(p, kv.COQ) for p in glob.glob(os.path.join(kv.COQ, sub, '*.v')))
+        if ensure_makefile_unchanged == head + '\n'.join(files) + '\n':
+            rc_q, _, _ = kv.run(['make', '-q'] + targets, 300, cwd=kv.COQ)
+            uptodate = (rc_q == 0)
+    if uptodate:
+        return True, out_t, 0, 'up to date', _status(targets)
+    fcntl.flock(_LOCK, fcntl.LOCK_UN)
     fcntl.flock(_LOCK, fcntl.LOCK_EX)
     try:
         ok_tables, tables_out = regen_tables()
         ensure_makefile()
         rc, out, _ = kv.run(['make', '-k', f'-j{kv.NPROC}'] + targets, 2400, cwd=kv.COQ)
-        status = {t: os.path.exists(os.path.join(kv.COQ, t)) and
-                  os.path.getmtime(os.path.join(kv.COQ, t)) >= os.path.getmtime(os.path.join(kv.COQ, t[:-1]))
-                  for t in targets}
+        status = _status(targets)
     finally:
         fcntl.flock(_LOCK, fcntl.LOCK_SH)
     return ok_tables, tables_out, rc, out, status
